@@ -47,3 +47,18 @@ Theorem C08_state_relabelling_invariant_given_ExpLaws :
 Proof. by move=> *; apply: mk_permutation. Qed.
 End C08.
 Print Assumptions C08_state_relabelling_invariant_given_ExpLaws.
+
+(* ------------------------------------------------------------------------------------------------
+   Unconditional over the reals: the laws E0-E2 (and positivity) are theorems about the real matrix
+   exponential mexp (analysis/MExp.v: entrywise limit of the exponential series), so the statements
+   above hold for the matrix exponential itself, not only "given ExpLaws". *)
+From Coq Require Import Rdefinitions.
+From PG Require Import analysis.Rstruct analysis.RSums analysis.MExp analysis.MExpLaws.
+
+Theorem C08_state_relabelling_invariant_real :
+  forall n (a : 'rV[R]_n) (S : 'M[R]_n) (Rs : nat -> 'M[R]_n) (k : nat) (t : R) (s : 'S_n),
+    let P := perm_mx s in
+    mk (fun n : nat => @mexp n) (a *m P) (P^T *m S *m P) (fun i => P^T *m Rs i *m P) k t
+    = mk (fun n : nat => @mexp n) a S Rs k t.
+Proof. by move=> *; apply: real_mk_permutation. Qed.
+Print Assumptions C08_state_relabelling_invariant_real.
